@@ -18,11 +18,3 @@ pub mod consts {
 pub fn hex(b: &[u8]) -> String {
     b.iter().map(|x| format!("{x:02X}")).collect::<Vec<_>>().join(" ")
 }
-
-/// The library's error types capture a `std::backtrace::Backtrace` whenever RUST_BACKTRACE is set in the
-/// caller's environment (tens of microseconds per `Err`); the checks provoke millions of errors on
-/// purpose. RUST_LIB_BACKTRACE=0 switches that capture off without touching panic reporting or any
-/// behaviour under test. Call first thing in `main`, before any thread exists.
-pub fn quiet_error_backtraces() {
-    std::env::set_var("RUST_LIB_BACKTRACE", "0");
-}
